@@ -32,7 +32,8 @@ def _snap(reader):
 
 def run_one(source, choices, out, cfg=None):
     cfg = cfg or {}
-    rec = H.execute(source, choices, validate=1, quitonerror=cfg.get("q", 1), parsed=True)
+    rec = H.execute(source, choices, validate=1, quitonerror=cfg.get("q", 1), parsed=True,
+                    returns="seekable" if cfg.get("seekable") else bytes)
     H.check_pairs(source, rec["events"], out)
     for ev in rec["events"]:
         if ev[0] == "nonterm":
@@ -232,6 +233,13 @@ def kind_cases(tier):
                 if bs in (1, 2, 3, 5, 8, 16):
                     out.append({"family": "sockets", "name": f"{name}/noise{noise}/bufsize{bs}/7",
                                 "bufsize": bs, "conns": [{"name": name, "source": src, "segs": [7] * 40}]})
+    # the extra hostile items over ONE socket connection, followed by each frame of the alphabet
+    for e in items.hostile_extra():
+        for a in [x for x in alpha if x.get("kind") == "frame"][:10]:
+            src = e["data"] + a["data"]
+            for sa in ([], [1] * len(src), [len(e["data"])]):
+                out.append({"family": "sockets", "name": f"{e['name']}+{a['name']}/{len(sa)}",
+                            "conns": [{"name": e["name"] + "+" + a["name"], "source": src, "segs": sa}]})
     depth = 3 if tier == "quick" else 4
     for kind in ("bytesio", "buffered"):
         for m in multi:
@@ -254,7 +262,7 @@ def explore_stream(name, source, bound, st, cfg=None, keep=False):
     def body(ch):
         out = core.Outcome()
         rec = H.execute(source, (), validate=1, quitonerror=(cfg or {}).get("q", 1), parsed=True,
-                        chooser=ch)
+                        chooser=ch, returns="seekable" if (cfg or {}).get("seekable") else bytes)
         H.check_pairs(source, rec["events"], out)
         for ev in rec["events"]:
             if ev[0] == "nonterm":
@@ -304,6 +312,18 @@ def plan(tier):
             seqs.append((a["name"] + "+" + e["name"], a["data"] + e["data"]))
     for ch in core.chunks(seqs, 40 if tier == "quick" else 150):
         work.append(("items", ch, bound_items, None))
+    # the same fault exploration over a SEEKABLE stream (a reader may treat it differently)
+    wf = items.wellformed(tier)
+    sk = [i for i in wf if i["kind"] == "frame"][:8] + [i for i in alpha if i["name"] in
+                                                         ("nmeaG", "dmgcrc", "D3", "trunc5", "D300")]
+    seqs_sk = []
+    for d in (1, 2, 3):
+        for combo in itertools.product(sk, repeat=d):
+            if d == 3 and sum(len(i["data"]) for i in combo) > 90:
+                continue
+            seqs_sk.append(("+".join(i["name"] for i in combo), b"".join(i["data"] for i in combo)))
+    for ch in core.chunks(seqs_sk, 60):
+        work.append(("items-seekable", ch, 1, {"seekable": True}))
     if tier == "quick":
         seq3 = [("+".join(i["name"] for i in combo), b"".join(i["data"] for i in combo))
                 for combo in itertools.product(alpha, repeat=3)]
